@@ -12,3 +12,4 @@ import PGV.Props.C01
 #print axioms PGV.Props.C01.C01_verdict_text
 #print axioms PGV.Props.C01.C01_width_signedness_indep
 #print axioms PGV.Props.C01.F_C01_e_witness
+#print axioms PGV.Props.C01.C01_rule_table
